@@ -584,6 +584,9 @@ pub struct Scn3 {
     pub force_closed_at: Option<u64>,
     pub reset_at: Option<u64>,
     pub probe: bool,
+    /// seed of the cooperative yields before the breaker takes its state lock (0 = none)
+    #[serde(default)]
+    pub buggify: u64,
     pub knobs: SchedKnobs,
 }
 
@@ -631,6 +634,7 @@ fn gen3_multi_phase(rng: &mut Rng) -> Scn3 {
         force_closed_at: None,
         reset_at: None,
         probe: true,
+        buggify: if rng.chance(1, 2) { rng.next_u64() | 1 } else { 0 },
         knobs: SchedKnobs::gen(rng, false, 100),
     }
 }
@@ -698,6 +702,7 @@ pub fn gen3(rng: &mut Rng, half_open_bias: bool) -> Scn3 {
         force_closed_at: if rng.chance(1, 8) { Some(rng.below(3 * wait)) } else { None },
         reset_at: if rng.chance(1, 8) { Some(rng.below(3 * wait)) } else { None },
         probe: true,
+        buggify: if rng.chance(1, 3) { rng.next_u64() | 1 } else { 0 },
         knobs: SchedKnobs::gen(rng, faulty, 2 * wait),
     }
 }
@@ -785,7 +790,10 @@ pub fn run3(s: &Scn3, ctx: &mut RunCtx, prefix: &'static str) -> RunOutput {
                 w.script.by_req.insert((0, i as u32), vec![c.beh]);
             }
             w.script.by_req.insert((0, n as u32), vec![Behaviour { lat_ms: 0, out: Outcome::Ok, yields: 0 }]);
+            w.buggify_state = scn.buggify;
+            w.buggify_rate = if scn.buggify != 0 { 30 } else { 0 };
         });
+        tower_resilience_core::verif::set_async_yield_hook(Some(world::hook_async_yield));
         let layer = build_layer!(&scn.cfg, b => b.build());
         let plain = layer.layer(SimInner::new(0));
         let base = match scn.fallback_ms {
@@ -858,6 +866,7 @@ pub fn run3(s: &Scn3, ctx: &mut RunCtx, prefix: &'static str) -> RunOutput {
     };
     let mut idle = || {};
     let rep = run_sim(cfg, &mut ctx.chooser, setup, Hooks { step: &mut step, idle: &mut idle });
+    tower_resilience_core::verif::set_async_yield_hook(None);
     drop(handle);
     let log = world::with(|w| std::mem::take(&mut w.log));
     let calls = inner_calls(&log);
@@ -945,9 +954,14 @@ pub fn run3(s: &Scn3, ctx: &mut RunCtx, prefix: &'static str) -> RunOutput {
                 let before = trials
                     .iter()
                     .filter(|d| {
+                        // a caller cancelled before its outcome could be recorded gives the slot
+                        // back, even if its inner call had just finished
+                        let caller = rep.tasks.get(d.req as usize);
+                        let cancelled_seq = caller.filter(|t| t.status == Status::Cancelled).map(|t| t.end_seq);
                         d.start_seq < c.start_seq
-                            && match d.how {
-                                Some(crate::inner::EndHow::Ok) | Some(crate::inner::EndHow::Err(_)) => true,
+                            && match (d.how, cancelled_seq) {
+                                (_, Some(cs)) => cs > c.start_seq && d.end_seq.map(|e| e > c.start_seq).unwrap_or(true),
+                                (Some(crate::inner::EndHow::Ok), None) | (Some(crate::inner::EndHow::Err(_)), None) => true,
                                 _ => d.end_seq.map(|e| e > c.start_seq).unwrap_or(true),
                             }
                     })
